@@ -924,3 +924,71 @@ Proof.
   rewrite (logprob_is_spec_any_lemma ed lg mask dr ed' a lp ent act B) by assumption.
   apply simp_sound_t. exact inv.
 Qed.
+
+(* ------------------------------------------------------------------ deepening: IPPO mask rows follow the observation rows for every key order of infos *)
+From Coq Require Import Permutation.
+
+Lemma agent_eqb_eq a b : agent_eqb a b = true <-> a = b.
+Proof.
+  unfold agent_eqb. destruct a as [g m], b as [g' m']. cbn [fst snd]. rewrite andb_true_iff, !Nat.eqb_eq.
+  split; [intros [-> ->]; reflexivity|intro H; injection H; auto].
+Qed.
+
+Lemma lookup_agent_in {V} (k : agent) (v : V) l : NoDup (map fst l) -> In (k, v) l -> lookup_agent k l = Some v.
+Proof.
+  induction l as [|[k' v'] l IH]; intros Hnd Hin; [contradiction|]. cbn [lookup_agent map fst] in *.
+  inversion Hnd as [|? ? Hni Hnd']; subst. destruct Hin as [E|Hin].
+  - injection E as -> ->. destruct (agent_eqb k k) eqn:Ek; [reflexivity|].
+    assert (agent_eqb k k = true) by (apply agent_eqb_eq; reflexivity). congruence.
+  - destruct (agent_eqb k k') eqn:Ek; [|apply IH; assumption].
+    apply agent_eqb_eq in Ek. subst k'. exfalso. apply Hni. apply (in_map fst) in Hin. exact Hin.
+Qed.
+
+Lemma lookup_agent_none {V} (k : agent) (l : list (agent * V)) : ~ In k (map fst l) -> lookup_agent k l = None.
+Proof.
+  induction l as [|[k' v'] l IH]; intro H; [reflexivity|]. cbn [lookup_agent map fst] in *.
+  destruct (agent_eqb k k') eqn:Ek; [apply agent_eqb_eq in Ek; subst; exfalso; apply H; left; reflexivity|].
+  apply IH. intro Hin. apply H. right. exact Hin.
+Qed.
+
+Lemma lookup_agent_perm {V} (k : agent) (l l' : list (agent * V)) :
+  NoDup (map fst l) -> Permutation l l' -> lookup_agent k l' = lookup_agent k l.
+Proof.
+  intros Hnd Hp.
+  assert (Hnd' : NoDup (map fst l')) by (eapply Permutation_NoDup; [apply Permutation_map; exact Hp|exact Hnd]).
+  destruct (lookup_agent k l) as [v|] eqn:E.
+  - assert (Hin : In (k, v) l).
+    { clear -E. induction l as [|[k' v'] l IH]; [discriminate|]. cbn [lookup_agent] in E.
+      destruct (agent_eqb k k') eqn:Ek; [apply agent_eqb_eq in Ek; subst; injection E as ->; left; reflexivity|right; apply IH; exact E]. }
+    apply lookup_agent_in; [exact Hnd'|]. eapply Permutation_in; eassumption.
+  - apply lookup_agent_none. intro Hin.
+    assert (Hin' : In k (map fst l)) by (eapply Permutation_in; [apply Permutation_sym, Permutation_map; exact Hp|exact Hin]).
+    apply in_map_iff in Hin' as [[k0 v0] [Hk Hin0]]. cbn in Hk. subst k0.
+    rewrite (lookup_agent_in k v0 l Hnd Hin0) in E. discriminate.
+Qed.
+
+(* whatever key order the caller used for infos, policy group g receives, row by row, the mask of the agent whose
+   observation is in that row (the group's members in agent_ids order) *)
+Theorem ippo_masks_follow_observations_lemma {V} (ids : list agent) (infos infos' : list (agent * V)) (g : nat) :
+  NoDup (map fst infos) -> Permutation infos infos' ->
+  ippo_masks ids infos' g = ippo_masks ids infos g /\
+  length (ippo_masks ids infos g) = length (group_members ids g) /\
+  (forall r a, nth_error (group_members ids g) r = Some a -> nth_error (ippo_masks ids infos' g) r = Some (lookup_agent a infos)).
+Proof.
+  intros Hnd Hp. unfold ippo_masks. repeat split.
+  - apply map_ext. intro a. apply lookup_agent_perm; assumption.
+  - apply map_length.
+  - intros r a Hr. rewrite nth_error_map, Hr. cbn. f_equal. apply lookup_agent_perm; assumption.
+Qed.
+
+(* before 0c075e0 the rows followed the caller's key order: refuted by a two-agent group listed in the other order *)
+Lemma ippo_masks_pinned_refuted_lemma :
+  exists (ids : list agent) (infos infos' : list (agent * nat)) g,
+    NoDup (map fst infos) /\ Permutation infos infos' /\ ippo_masks_pinned infos' g <> ippo_masks ids infos g.
+Proof.
+  exists [(0, 1); (0, 0)], [((0, 1), 11); ((0, 0), 10)], [((0, 0), 10); ((0, 1), 11)], 0.
+  repeat split.
+  - repeat constructor; cbn; intuition discriminate.
+  - apply perm_swap.
+  - vm_compute. discriminate.
+Qed.
